@@ -136,6 +136,10 @@ func harmed(a, b resources) []string {
 	if b.withdraw != a.withdraw {
 		out = append(out, "withdraw-address")
 	}
+	// pending rewards taken out (one base unit of slack for the re-truncation of a new period)
+	if a.rewards.AmountOf(world.Denom).Sub(b.rewards.AmountOf(world.Denom)).GT(sdk.OneDec()) {
+		out = append(out, "rewards")
+	}
 	if b.grants != a.grants {
 		out = append(out, "grants")
 	}
@@ -149,9 +153,13 @@ type scen struct {
 	method string
 	named  string // S | caller | T | other
 	grant  string // none | S->caller | T->caller | both
+	wd     string // withdraw address of the third party: "" (its own) | caller | S
 }
 
 func (s scen) String() string {
+	if s.wd != "" {
+		return fmt.Sprintf("%s by %s named=%s grants=%s withdraw(T)=%s", s.method, s.pos, s.named, s.grant, s.wd)
+	}
 	return fmt.Sprintf("%s by %s named=%s grants=%s", s.method, s.pos, s.named, s.grant)
 }
 
@@ -230,7 +238,11 @@ func partA(e *env, res *engine.Result, shard, n int) {
 					if pos == "direct" && g != "none" {
 						continue
 					}
-					scs = append(scs, scen{pos, m, named, g})
+					scs = append(scs, scen{pos, m, named, g, ""})
+					// the third party has pointed its withdraw address at the caller / at the signer
+					if named == "T" && (strings.HasPrefix(m, "distribution.") || m == "staking.delegate" || m == "staking.undelegate") {
+						scs = append(scs, scen{pos, m, named, g, "caller"}, scen{pos, m, named, g, "S"})
+					}
 				}
 			}
 		}
@@ -284,6 +296,12 @@ func partA(e *env, res *engine.Result, shard, n int) {
 					}
 				}
 			}
+		}
+		switch sc.wd {
+		case "caller":
+			w.App.DistrKeeper.SetDelegatorWithdrawAddr(w.Ctx(), w.Addrs[f.T], sdk.AccAddress(callerAddr.Bytes()))
+		case "S":
+			w.App.DistrKeeper.SetDelegatorWithdrawAddr(w.Ctx(), w.Addrs[f.T], w.Addrs[f.S])
 		}
 		lf := e.leaf(sc.method, named, callerAddr)
 		ctx := w.App.BaseApp.VerifDeliverCtx()
@@ -729,7 +747,7 @@ func Run(tier string) int {
 	res.Sample(map[string]any{"partA": "staking.undelegate by D named=T grants=T->caller", "partB": []string{"approve(5)", "spend(V1,4,swallow)", "spend(V1,4,bubble)"}})
 	return engine.Finish(res, engine.Meta{
 		Property: Prop, Tier: tier, Level: "model_checking", Start: start,
-		Rule:   "A: full grid {signer directly, contract, nested contract} x 16 state-changing staking/distribution/ICS-20/authorization methods x named account {signer, calling contract, third party, other contract} x grants {none, signer->caller, third->caller, both}, frame rule on a snapshot of funds / stake / unbonding / withdraw address / grants of 5 accounts; B: DFS with digest dedup over all sequences <= depth of {approve, increase, decrease, revoke, native grant with allow-list / other type, spend via contract with failure bubbled or swallowed to V1/V2 for 4 amounts, expiry jump}; C: the same DFS over ICS-20 allowance histories {approve(5|10), increase, decrease(3|all|100), revoke, transfer via contract on the granted / another channel for 4 amounts with failure bubbled or swallowed, expiry jump} with the escrow account as spend witness; non-trivial = scenario with an effect / successful spend distinct by (grant, amount, mode)",
+		Rule:   "A: full grid {signer directly, contract, nested contract} x 16 state-changing staking/distribution/ICS-20/authorization methods x named account {signer, calling contract, third party, other contract} x grants {none, signer->caller, third->caller, both} (x the third party's withdraw address {own, caller, signer} where it is named), frame rule on a snapshot of funds / stake / unbonding / pending rewards / withdraw address / grants of 5 accounts; B: DFS with digest dedup over all sequences <= depth of {approve, increase, decrease, revoke, native grant with allow-list / other type, spend via contract with failure bubbled or swallowed to V1/V2 for 4 amounts, expiry jump}; C: the same DFS over ICS-20 allowance histories on two channels {approve(A:10 | A:10,B:5), increase / decrease(3|all|100) per channel, revoke, transfer via contract per channel for 3 amounts with failure bubbled or swallowed, expiry jump} with the escrow accounts as spend witness, every step also checked for leaving the other channel's allocation alone; non-trivial = scenario with an effect / successful spend distinct by (grant, amount, mode)",
 		Bounds: map[string]any{"history_depth": map[string]int{"quick": 3, "thorough": 5}},
 		Assumptions: []string{
 			"gas price 0; contracts never bubble in part A so effects of failed-and-ignored calls count",
@@ -811,6 +829,7 @@ func (e *env) opsC(w *world.World, depth int, path []string) []engine.Op {
 	f := e.f
 	ab := f.ABIs.ICS20
 	cAddr := world.ContractAddr(0x10)
+	chans := []string{world.IBCChannelA, world.IBCChannelB}
 	var out []engine.Op
 	add := func(name string, fn func(p []string, res *engine.Result) string) {
 		out = append(out, engine.Op{Name: name, Apply: func(w *world.World, p []string, res *engine.Result) string { return fn(p, res) }})
@@ -822,11 +841,34 @@ func (e *env) opsC(w *world.World, depth int, path []string) []engine.Op {
 		}
 		res.AddViolation(engine.Violation{Signature: "C04|op=ics20." + op + "|breach=allowance-arithmetic", What: what, Path: p, Detail: d})
 	}
-	for _, lim := range []int64{5, 10} {
-		lim := lim
-		add(fmt.Sprintf("ics20.approve(%d)", lim), func(p []string, res *engine.Result) string {
+	// othersUnchanged: every allocation except the one on ch is as before
+	othersUnchanged := func(pre, post tgrant, ch string) bool {
+		for _, c := range chans {
+			if c == ch {
+				continue
+			}
+			a, ha := pre.limits[c]
+			b, hb := post.limits[c]
+			if ha != hb || (ha && !a.Equal(b)) || pre.unlimited[c] != post.unlimited[c] {
+				return false
+			}
+		}
+		return true
+	}
+	short := func(ch string) string { return map[string]string{world.IBCChannelA: "A", world.IBCChannelB: "B"}[ch] }
+	for _, ap := range []struct {
+		name string
+		al   []allocT
+		want map[string]int64
+	}{
+		{"ics20.approve(A:10)", []allocT{{world.IBCPort, world.IBCChannelA, []coinT{{world.Denom, big.NewInt(10)}}, nil}}, map[string]int64{world.IBCChannelA: 10}},
+		{"ics20.approve(A:10,B:5)", []allocT{{world.IBCPort, world.IBCChannelA, []coinT{{world.Denom, big.NewInt(10)}}, nil},
+			{world.IBCPort, world.IBCChannelB, []coinT{{world.Denom, big.NewInt(5)}}, nil}}, map[string]int64{world.IBCChannelA: 10, world.IBCChannelB: 5}},
+	} {
+		ap := ap
+		add(ap.name, func(p []string, res *engine.Result) string {
 			pre := e.tgrantOf()
-			ok := e.sendTx(precomp.ICS20Addr, precomp.MustPack(ab, "approve", cAddr, []allocT{{world.IBCPort, world.IBCChannelA, []coinT{{world.Denom, big.NewInt(lim)}}, nil}}))
+			ok := e.sendTx(precomp.ICS20Addr, precomp.MustPack(ab, "approve", cAddr, ap.al))
 			post := e.tgrantOf()
 			res.Evaluations++
 			if !ok {
@@ -835,58 +877,71 @@ func (e *env) opsC(w *world.World, depth int, path []string) []engine.Op {
 				}
 				return "ok:failed"
 			}
-			if l, has := post.limits[world.IBCChannelA]; !post.exists || !has || !l.Equal(sdkmath.NewInt(lim)) {
-				bad(res, "approve", "approve(L) did not leave an allocation limited to L", p, pre, post, nil)
+			for _, c := range chans {
+				l, has := post.limits[c]
+				wl, wants := ap.want[c]
+				if has != wants || (has && !l.Equal(sdkmath.NewInt(wl))) {
+					bad(res, "approve", "approve did not leave exactly the allocations asked for", p, pre, post, map[string]any{"channel": c})
+				}
 			}
 			return "ok"
 		})
 	}
-	for _, x := range []struct {
-		name, method string
-		amt          int64
-	}{{"ics20.increase(3)", "increaseAllowance", 3}, {"ics20.decrease(3)", "decreaseAllowance", 3}, {"ics20.decrease(all)", "decreaseAllowance", -1}, {"ics20.decrease(100)", "decreaseAllowance", 100}} {
-		x := x
-		add(x.name, func(p []string, res *engine.Result) string {
-			pre := e.tgrantOf()
-			amt := x.amt
-			cur, has := pre.limits[world.IBCChannelA]
-			if amt < 0 {
-				if !has || !cur.IsPositive() {
-					return "skip"
+	for _, ch := range chans {
+		for _, x := range []struct {
+			name, method string
+			amt          int64
+		}{{"ics20.increase(%s,3)", "increaseAllowance", 3}, {"ics20.decrease(%s,3)", "decreaseAllowance", 3}, {"ics20.decrease(%s,all)", "decreaseAllowance", -1}, {"ics20.decrease(%s,100)", "decreaseAllowance", 100}} {
+			ch, x := ch, x
+			add(fmt.Sprintf(x.name, short(ch)), func(p []string, res *engine.Result) string {
+				pre := e.tgrantOf()
+				amt := x.amt
+				cur, has := pre.limits[ch]
+				if amt < 0 {
+					if !has || !cur.IsPositive() {
+						return "skip"
+					}
+					amt = cur.Int64()
 				}
-				amt = cur.Int64()
-			}
-			ok := e.sendTx(precomp.ICS20Addr, precomp.MustPack(ab, x.method, cAddr, world.IBCPort, world.IBCChannelA, world.Denom, big.NewInt(amt)))
-			post := e.tgrantOf()
-			res.Evaluations++
-			if !ok {
-				if post.String() != pre.String() {
-					bad(res, x.method, "a failed authorization call changed the grant", p, pre, post, nil)
+				ok := e.sendTx(precomp.ICS20Addr, precomp.MustPack(ab, x.method, cAddr, world.IBCPort, ch, world.Denom, big.NewInt(amt)))
+				post := e.tgrantOf()
+				res.Evaluations++
+				if !ok {
+					if post.String() != pre.String() {
+						bad(res, x.method, "a failed authorization call changed the grant", p, pre, post, nil)
+					}
+					return "ok:failed"
 				}
-				return "ok:failed"
-			}
-			if !has || pre.expired {
+				if !othersUnchanged(pre, post, ch) {
+					bad(res, x.method, "an allowance change for one channel changed the allocation of another channel", p, pre, post, map[string]any{"channel": ch})
+				}
+				if pre.exists && !pre.expired && !has && !pre.unlimited[ch] {
+					bad(res, x.method, "an allowance change for a channel without allocation succeeded", p, pre, post, map[string]any{"channel": ch})
+					return "ok"
+				}
+				if !has || pre.expired {
+					return "ok"
+				}
+				want := cur.AddRaw(amt)
+				if x.method == "decreaseAllowance" {
+					want = cur.SubRaw(amt)
+				}
+				got, still := post.limits[ch]
+				switch {
+				case want.IsNegative():
+					bad(res, x.method, "a decrease below zero succeeded", p, pre, post, nil)
+				case want.IsZero():
+					if still && got.IsPositive() {
+						bad(res, x.method, "decreasing the whole allowance left a positive limit", p, pre, post, nil)
+					}
+				default:
+					if !still || !got.Equal(want) {
+						bad(res, x.method, "the limit did not change by exactly the amount", p, pre, post, map[string]any{"want": want.String(), "channel": ch})
+					}
+				}
 				return "ok"
-			}
-			want := cur.AddRaw(amt)
-			if x.method == "decreaseAllowance" {
-				want = cur.SubRaw(amt)
-			}
-			got, still := post.limits[world.IBCChannelA]
-			switch {
-			case want.IsNegative():
-				bad(res, x.method, "a decrease below zero succeeded", p, pre, post, nil)
-			case want.IsZero():
-				if still && got.IsPositive() {
-					bad(res, x.method, "decreasing the whole allowance left a positive limit", p, pre, post, nil)
-				}
-			default:
-				if !still || !got.Equal(want) {
-					bad(res, x.method, "the limit did not change by exactly the amount", p, pre, post, map[string]any{"want": want.String()})
-				}
-			}
-			return "ok"
-		})
+			})
+		}
 	}
 	add("ics20.revoke", func(p []string, res *engine.Result) string {
 		pre := e.tgrantOf()
@@ -906,18 +961,15 @@ func (e *env) opsC(w *world.World, depth int, path []string) []engine.Op {
 		w.App.BaseApp.VerifSetDeliverCtx(w.App.BaseApp.VerifDeliverCtx().WithBlockHeader(w.Header))
 		return "ok"
 	})
-	for _, ch := range []string{world.IBCChannelA, world.IBCChannelB} {
-		for _, amt := range []int64{4, 5, 6, 11} {
+	for _, ch := range chans {
+		for _, amt := range []int64{4, 6, 11} {
 			for _, bubble := range []bool{false, true} {
 				ch, amt, bubble := ch, amt, bubble
-				if ch == world.IBCChannelB && amt != 4 {
-					continue
-				}
 				mode := "swallow"
 				if bubble {
 					mode = "bubble"
 				}
-				add(fmt.Sprintf("ics20.spend(%s,%d,%s)", ch, amt, mode), func(p []string, res *engine.Result) string {
+				add(fmt.Sprintf("ics20.spend(%s,%d,%s)", short(ch), amt, mode), func(p []string, res *engine.Result) string {
 					pre := e.tgrantOf()
 					preEsc := e.escrowed(ch)
 					lf := &calltree.Leaf{Name: "ics20.transfer", To: precomp.ICS20Addr, Data: precomp.MustPack(ab, "transfer", world.IBCPort, ch, world.Denom, big.NewInt(amt), w.Eth[f.S],
@@ -942,10 +994,13 @@ func (e *env) opsC(w *world.World, depth int, path []string) []engine.Op {
 					}
 					viol := func(breach, what string) {
 						res.AddViolation(engine.Violation{Signature: fmt.Sprintf("C04|op=ics20.spend|grant=%s|swallowed=%v|breach=%s", cls, !bubble, breach), What: what, Path: p,
-							Detail: map[string]any{"grant_before": pre.String(), "grant_after": post.String(), "escrowed": spent.String(), "requested": amt}})
+							Detail: map[string]any{"grant_before": pre.String(), "grant_after": post.String(), "escrowed": spent.String(), "requested": amt, "channel": ch}})
 					}
 					if post.exists && pre.exists && post.expiry != pre.expiry {
 						viol("expiry-changed", "using a grant changed its expiration")
+					}
+					if !othersUnchanged(pre, post, ch) {
+						viol("other-channel", "a transfer on one channel changed the allocation of another channel")
 					}
 					if spent.IsZero() {
 						if post.String() != pre.String() {
@@ -953,7 +1008,7 @@ func (e *env) opsC(w *world.World, depth int, path []string) []engine.Op {
 						}
 						return "ok:rejected"
 					}
-					res.Nontrivial[fmt.Sprintf("ics20|%s|%d|%s", pre.String(), amt, mode)] = true
+					res.Nontrivial[fmt.Sprintf("ics20|%s|%s|%d|%s", pre.String(), short(ch), amt, mode)] = true
 					if !spent.Equal(sdkmath.NewInt(amt)) {
 						viol("amount", "the escrowed amount differs from the requested amount")
 					}
